@@ -1,2 +1,284 @@
+/* unit ops of slice H: msa_cmp.c (compare_pair, kalign_msa_compare), msa_check.c
+   (kalign_essential_input_check), msa_sort.c (msa_sort_len_name).
+   Every op validates all of its arguments before it prints anything. */
 #include "kvh.h"
-struct kv_op kv_ops_misc[] = { {NULL, NULL} };
+#include <ctype.h>
+#include <math.h>
+#include "tldevel.h"
+#include "msa_struct.h"
+#include "msa_check.h"
+#include "msa_sort.h"
+#include "msa_cmp.h"
+
+int kv_compare_pair(char *a1, char *a2, char *b1, char *b2, int len_a, int len_b, uint64_t *out);
+int kv_sort_by_len_name(struct msa_seq *a, struct msa_seq *b);
+
+/* row token: printable ASCII without blanks; "." = empty row. returns NULL if malformed */
+static const char *row_of(const char *tok)
+{
+        if(strcmp(tok, ".") == 0) return "";
+        for(const char *p = tok; *p; p++){ if((unsigned char)*p < 0x21 || (unsigned char)*p > 0x7e) return NULL; }
+        return tok;
+}
+static int nres_of(const char *r)
+{
+        int n = 0;
+        for(; *r; r++) if(isalpha((int)*r)) n++;
+        return n;
+}
+/* name token: hex, "-" = empty, no NUL byte inside. returns malloc'ed C string or NULL */
+static char *name_of(const char *tok)
+{
+        unsigned char *b = NULL; int n = 0;
+        if(kv_unhex(tok, &b, &n)) return NULL;
+        for(int i = 0; i < n; i++){ if(b[i] == 0){ free(b); return NULL; } }
+        char *s = malloc(n + 1);
+        memcpy(s, b, n); s[n] = 0;
+        free(b);
+        return s;
+}
+static void print_u64s(FILE *out, const uint64_t *c, int n)
+{
+        for(int i = 0; i < n; i++) fprintf(out, i ? ",%llu" : "%llu", (unsigned long long)c[i]);
+}
+
+/* compare_pair rowA1 rowA2 rowB1 rowB2 -> "<rc> c1,..,c6" | fault */
+static int op_compare_pair(int argc, char **argv, FILE *out)
+{
+        if(argc != 4) return 1;
+        const char *r[4];
+        for(int i = 0; i < 4; i++){ r[i] = row_of(argv[i]); if(!r[i]) return 1; }
+        int la = (int)strlen(r[0]), lb = (int)strlen(r[2]);
+        if((int)strlen(r[1]) != la || (int)strlen(r[3]) != lb){ fputs("fault", out); return 0; }
+        if(la > 0 && lb > 0 && (nres_of(r[2]) > nres_of(r[0]) || nres_of(r[3]) > nres_of(r[1]))){
+                /* the comparison loops would read codes*_A behind what the scan of A wrote (uninitialised / out of bounds) */
+                fputs("fault", out); return 0;
+        }
+        uint64_t c[6] = {0,0,0,0,0,0};
+        int rc = kv_compare_pair((char*)r[0], (char*)r[1], (char*)r[2], (char*)r[3], la, lb, c);
+        fprintf(out, "%d ", rc == OK ? 0 : 1);
+        print_u64s(out, c, 6);
+        return 0;
+}
+
+struct kv_aln { int n; char **names; const char **rows; int width; };
+
+static void free_aln(struct kv_aln *a)
+{
+        if(a->names){ for(int i = 0; i < a->n; i++) free(a->names[i]); free(a->names); }
+        free(a->rows);
+        a->names = NULL; a->rows = NULL;
+}
+/* parses "n name:row *n" starting at argv[*pos]; 0 on success */
+static int parse_aln(int argc, char **argv, int *pos, struct kv_aln *a)
+{
+        a->n = 0; a->names = NULL; a->rows = NULL; a->width = 0;
+        if(*pos >= argc) return 1;
+        char *e; long n = strtol(argv[*pos], &e, 10);
+        if(e == argv[*pos] || *e || n < 1 || *pos + 1 + n > argc) return 1;
+        (*pos)++;
+        a->n = (int)n;
+        a->names = calloc(n, sizeof(char*)); a->rows = calloc(n, sizeof(char*));
+        for(int i = 0; i < n; i++){
+                char *tok = argv[*pos + i];
+                char *colon = strchr(tok, ':');
+                if(!colon || strchr(colon + 1, ':')) goto BAD;
+                *colon = 0;
+                a->names[i] = name_of(tok);
+                *colon = ':';
+                a->rows[i] = row_of(colon + 1);
+                if(!a->names[i] || !a->rows[i]) goto BAD;
+                if(i == 0) a->width = (int)strlen(a->rows[0]);
+                else if((int)strlen(a->rows[i]) != a->width) goto BAD;
+        }
+        *pos += (int)n;
+        return 0;
+BAD:
+        free_aln(a);
+        return 1;
+}
+/* a finalised alignment as finalise_alignment leaves it: seq = gapped row, len = number of residues */
+static struct msa *mk_msa(const struct kv_aln *a)
+{
+        struct msa *m = calloc(1, sizeof(struct msa));
+        m->numseq = a->n; m->alloc_numseq = a->n; m->aligned = ALN_STATUS_FINAL; m->alnlen = a->width; m->quiet = 1;
+        m->sequences = calloc(a->n, sizeof(struct msa_seq*));
+        for(int i = 0; i < a->n; i++){
+                struct msa_seq *s = calloc(1, sizeof(struct msa_seq));
+                s->name = strdup(a->names[i]);
+                s->seq = strdup(a->rows[i]);
+                s->len = nres_of(a->rows[i]);
+                s->rank = i;
+                m->sequences[i] = s;
+        }
+        return m;
+}
+static void rm_msa(struct msa *m)
+{
+        for(int i = 0; i < m->alloc_numseq; i++){ if(m->sequences[i]){ free(m->sequences[i]->name); free(m->sequences[i]->seq); free(m->sequences[i]); } }
+        free(m->sequences); free(m);
+}
+
+/* msa_compare nR nameR:rowR .. nT nameT:rowT .. -> "0 <score bits> c1,..,c6" | "1 - -" | fault */
+static int op_msa_compare(int argc, char **argv, FILE *out)
+{
+        struct kv_aln A, B;
+        int pos = 0;
+        if(parse_aln(argc, argv, &pos, &A)) return 1;
+        if(parse_aln(argc, argv, &pos, &B)){ free_aln(&A); return 1; }
+        if(pos != argc){ free_aln(&A); free_aln(&B); return 1; }
+
+        /* would the real call read uninitialised / out-of-bounds memory?  decided on scratch copies
+           that went through the same check + sort */
+        int fault = 0;
+        {
+                struct msa *r = mk_msa(&A), *t = mk_msa(&B);
+                if(kalign_check_msa(r, 1) == OK && kalign_check_msa(t, 1) == OK){
+                        kalign_sort_msa(r); kalign_sort_msa(t);
+                        if(r->numseq >= 2){
+                                if(t->numseq < r->numseq) fault = 1;
+                                else if(r->alnlen > 0 && t->alnlen > 0){
+                                        for(int i = 0; i < r->numseq; i++){
+                                                if(t->sequences[i]->len > r->sequences[i]->len) fault = 1;
+                                        }
+                                }
+                        }
+                }
+                rm_msa(r); rm_msa(t);
+        }
+        if(fault){
+                fputs("fault", out);
+        }else{
+                struct msa *r = mk_msa(&A), *t = mk_msa(&B);
+                float score = -1.0f;
+                int rc = kalign_msa_compare(r, t, &score);
+                if(rc != OK){
+                        fputs("1 - -", out);
+                }else{
+                        /* counters: the static compare_pair over the (now sorted) structs, as the function itself did */
+                        uint64_t c[6] = {0,0,0,0,0,0};
+                        for(int i = 0; i < r->numseq; i++){
+                                for(int j = i + 1; j < r->numseq; j++){
+                                        kv_compare_pair(r->sequences[i]->seq, r->sequences[j]->seq, t->sequences[i]->seq, t->sequences[j]->seq,
+                                                        r->alnlen, t->alnlen, c);
+                                }
+                        }
+                        uint32_t bits; memcpy(&bits, &score, 4);
+                        if(isnan(score)) bits = 0x7fc00000u;
+                        fprintf(out, "0 %08x ", bits);
+                        print_u64s(out, c, 6);
+                }
+                rm_msa(r); rm_msa(t);
+        }
+        free_aln(&A); free_aln(&B);
+        return 0;
+}
+
+/* parses len:namehex items into an msa (seq = NULL, rank = position) */
+static struct msa *parse_len_names(int argc, char **argv)
+{
+        if(argc < 1) return NULL;
+        struct msa *m = calloc(1, sizeof(struct msa));
+        m->numseq = argc; m->alloc_numseq = argc; m->quiet = 1;
+        m->sequences = calloc(argc, sizeof(struct msa_seq*));
+        for(int i = 0; i < argc; i++){
+                char *e; long l = strtol(argv[i], &e, 10);
+                if(e == argv[i] || *e != ':' || l < 0 || strchr(e + 1, ':')) goto BAD;
+                char *nm = name_of(e + 1);
+                if(!nm) goto BAD;
+                struct msa_seq *s = calloc(1, sizeof(struct msa_seq));
+                s->name = nm; s->len = (int)l; s->rank = i;
+                m->sequences[i] = s;
+        }
+        return m;
+BAD:
+        rm_msa(m);
+        return NULL;
+}
+
+/* sort_len_name len:namehex .. -> resulting order (input indices) */
+static int op_sort_len_name(int argc, char **argv, FILE *out)
+{
+        struct msa *m = parse_len_names(argc, argv);
+        if(!m) return 1;
+        msa_sort_len_name(m);
+        for(int i = 0; i < m->numseq; i++) fprintf(out, i ? ",%d" : "%d", m->sequences[i]->rank);
+        rm_msa(m);
+        return 0;
+}
+
+/* cmp_len_name len:namehex len:namehex -> return value of sort_by_len_name */
+static int op_cmp_len_name(int argc, char **argv, FILE *out)
+{
+        if(argc != 2) return 1;
+        struct msa *m = parse_len_names(argc, argv);
+        if(!m) return 1;
+        fprintf(out, "%d", kv_sort_by_len_name(m->sequences[0], m->sequences[1]));
+        rm_msa(m);
+        return 0;
+}
+
+/* essential_check[1] len .. -> "<rc> <kept> <tail> <ranks>" | "1 unchanged" */
+static int essential(int argc, char **argv, FILE *out, int exit_on_error)
+{
+        if(argc < 1) return 1;
+        int n = argc;
+        int *lens = malloc(sizeof(int) * n);
+        for(int i = 0; i < n; i++){
+                char *e; long l = strtol(argv[i], &e, 10);
+                if(e == argv[i] || *e || l < 0){ free(lens); return 1; }
+                lens[i] = (int)l;
+        }
+        struct msa *m = calloc(1, sizeof(struct msa));
+        m->numseq = n; m->alloc_numseq = n + 2; m->quiet = 1;
+        m->sequences = NULL;
+        /* kalign_essential_input_check frees msa->sequences with MFREE and installs its own array */
+        m->sequences = malloc(sizeof(struct msa_seq*) * m->alloc_numseq);
+        struct msa_seq **orig = calloc(m->alloc_numseq, sizeof(struct msa_seq*));
+        for(int i = 0; i < m->alloc_numseq; i++){
+                struct msa_seq *s = calloc(1, sizeof(struct msa_seq));
+                char buf[32]; snprintf(buf, sizeof buf, "s%d", i);
+                s->name = strdup(buf); s->len = i < n ? lens[i] : 7; s->rank = -1;
+                m->sequences[i] = s; orig[i] = s;
+        }
+        int rc = kalign_essential_input_check(m, exit_on_error);
+        int unchanged = (rc != OK) && m->numseq == n;
+        for(int i = 0; i < m->alloc_numseq; i++){ if(m->sequences[i] != orig[i] || orig[i]->rank != -1) unchanged = 0; }
+        if(unchanged){
+                fputs("1 unchanged", out);
+        }else{
+                /* index of every entry by pointer identity */
+                int *idx = malloc(sizeof(int) * m->alloc_numseq);
+                int bad = 0;
+                for(int i = 0; i < m->alloc_numseq; i++){
+                        idx[i] = -1;
+                        for(int k = 0; k < m->alloc_numseq; k++) if(m->sequences[i] == orig[k]) idx[i] = k;
+                        if(idx[i] < 0) bad = 1;
+                        if(i >= n && idx[i] != i) bad = 1; /* entries behind the old numseq stay where they are */
+                }
+                if(bad || m->numseq < 0 || m->numseq > n){
+                        fputs("harness-inconsistent", out);
+                }else{
+                        fprintf(out, "%d ", rc == OK ? 0 : 1);
+                        kv_print_ints(out, idx, m->numseq); fputc(' ', out);
+                        kv_print_ints(out, idx + m->numseq, n - m->numseq); fputc(' ', out);
+                        for(int i = 0; i < n; i++) fprintf(out, i ? ",%d" : "%d", m->sequences[i]->rank);
+                }
+                free(idx);
+        }
+        for(int i = 0; i < m->alloc_numseq; i++){ free(orig[i]->name); free(orig[i]); }
+        free(orig); free(m->sequences); free(m); free(lens);
+        return 0;
+}
+static int op_essential(int argc, char **argv, FILE *out){ return essential(argc, argv, out, 0); }
+static int op_essential1(int argc, char **argv, FILE *out){ return essential(argc, argv, out, 1); }
+
+struct kv_op kv_ops_misc[] = {
+        {"compare_pair", op_compare_pair},
+        {"msa_compare", op_msa_compare},
+        {"sort_len_name", op_sort_len_name},
+        {"cmp_len_name", op_cmp_len_name},
+        {"essential_check", op_essential},
+        {"essential_check1", op_essential1},
+        {NULL, NULL}
+};
